@@ -630,6 +630,23 @@ func genHs(g *genCtx) {
 			args = append(args, "/")
 			args = append(args, c.args(append(live(c, echo)[:1], "L", "L"))...)
 		}
+		if n%4 == 1 {
+			// a LONG chain: four to six more establishments on the same connection (fresh or repeated credentials, some failing)
+			prev := b
+			for k := 0; k < 4+g.rng.Intn(3); k++ {
+				c := mk()
+				switch g.rng.Intn(4) {
+				case 0:
+					c = prev
+					c.rm = rb(16)
+				case 1:
+					c.bmcPass = rb(len(c.pass) + 1)
+				}
+				args = append(args, "/")
+				args = append(args, c.args(live(c, echo))...)
+				prev = c
+			}
+		}
 		g.emit(Op{Class: 'P', NonTrivial: true, Kind: "hs2", Args: args})
 	}
 }
